@@ -100,7 +100,7 @@ COMMON_TRUST = ["hand model of the pipeline tied by the differential corresponde
 
 PROPS = {
     "C05": dict(
-        module="FastQr.Props.C05",
+        module="FastQr.Props.C05", more_modules=["FastQr.Props.C05Tables"],
         level="proof",
         key=key_buildv,
         rule="cases: public QRBuilder on '1'*len with forced mode/level; quick = 4 lengths around every boundary of "
